@@ -116,7 +116,8 @@ def body(run: Run, replay):
     uset = n2p.make_uset([r[:2] for r in tab1], [r[2] for r in tab1])
     idx = [(int(i), int(d)) for i, d in uset.index]
     if idx != [(r[0], r[1]) for r in tab1] or [r[:2] for r in tab1] != [r[:2] for r in tab2]:
-        raise RuntimeError("make_uset did not keep the row order of the spec's Table")
+        run.violation("make_uset does not keep the rows in the order given (ids / components %r)" % (idx,), {"table": tab1}, {"fn": "make_uset"})
+        return
     masks = {1: np.array([n2p.mkusetmask(r[2]) for r in tab1]), 2: np.array([n2p.mkusetmask(r[2]) for r in tab2])}
     arr = np.array([r[:2] for r in tab1])
 
